@@ -16,7 +16,7 @@ from fractions import Fraction
 from sa.dsl import T, _t
 from sa.terms import mk, ZERO, ONE, TRUE, FALSE, show, walk, map_term, num
 from sa.prove import Prover
-from .common import engine, inventory
+from .common import engine, inventory, plain_iteration, selected_iteration
 
 SELF = (('obj', 1),)
 
@@ -588,7 +588,7 @@ def add_speeds(ctx):
             seen_appl = True
         elif cnd == filt and o != '0':
             seen_filt = True
-        elif cnd[0] == 'discr' and 'iterpos' in repr(cnd) and o == '1':
+        elif plain_iteration(cnd) and o == '1':
             pass
         else:
             rest.append((show(cnd, an.names)[:100], o))
@@ -626,7 +626,7 @@ def applies(ctx):
         ctx.unproved(R, 'TrainParams::speed_set_applies', 'not analysable', ctx.where(b)); return
     w = ctx.where(b)
     r = an.ret()
-    ok = r[0] == 'gamma' and r[1][0] == 'discr' and 'iterpos' in repr(r[1]) and r[2] == FALSE and r[3] == TRUE
+    ok = r[0] == 'gamma' and plain_iteration(r[1]) and r[2] == FALSE and r[3] == TRUE
     ctx.check(ok, R, 'result', 'true exactly when the loop over the set\'s parameters runs to exhaustion, false only from inside it', 'returns %s' % show(r, an.names)[:200], w)
     # the early-return condition: the negated comparison of the current parameter
     alts = None
